@@ -96,7 +96,7 @@ type Link struct {
 	// CloseEv[i]: event at which endpoint i (0=A,1=B) closed its socket; 0 = open
 	CloseEv [2]int64
 	CloseAt [2]time.Duration // simulated time of that close
-	CutEv   int64 // event at which a fault reset the link
+	CutEv   int64            // event at which a fault reset the link
 	CutAt   time.Duration
 	// EndSeenAt[i]: when endpoint i's reader was first told the stream had ended (EOF or reset); 0 = not yet
 	EndSeenAt [2]time.Duration
@@ -112,20 +112,27 @@ type pipe struct {
 	finQueued bool
 	rst       bool
 	capacity  int
-	lat       time.Duration
-	jitter    int // extra 0..jitter grid ticks per segment
-	lastAt    time.Time
-	stallTill time.Time
-	stalled   bool // forever
-	discard   bool // after half-close fault: swallow writes
-	written   int64
-	consumed  int64
-	faults    []*Fault
-	queue     []qseg
-	pend      []byte // tap parse buffer
-	pendOff   int64
-	nextRead  int // index of first frame not yet fully consumed
-	segmented bool
+	// when the writer of this direction sat waiting because the peer was not reading
+	waiting      bool
+	waitSince    time.Duration
+	blockedSpans [][2]time.Duration
+	// a Write that was cut in the middle of its buffer (wseq numbers the Write calls)
+	wseq, partial uint64
+	mixed         bool
+	lat           time.Duration
+	jitter        int // extra 0..jitter grid ticks per segment
+	lastAt        time.Time
+	stallTill     time.Time
+	stalled       bool // forever
+	discard       bool // after half-close fault: swallow writes
+	written       int64
+	consumed      int64
+	faults        []*Fault
+	queue         []qseg
+	pend          []byte // tap parse buffer
+	pendOff       int64
+	nextRead      int // index of first frame not yet fully consumed
+	segmented     bool
 }
 
 // Conn is one endpoint; implements net.Conn.
@@ -307,6 +314,25 @@ func (l *Link) SetLatency(dir int, lat time.Duration, jitter int) {
 	}
 	p.lat, p.jitter = lat, jitter
 }
+
+// WriterBlockedAt: was the writer of direction dir waiting for the peer to read at time t
+// (since the run began)?
+func (l *Link) WriterBlockedAt(dir int, t time.Duration) bool {
+	p := l.A.wr
+	if dir == 1 {
+		p = l.B.wr
+	}
+	if p.waiting && p.waitSince <= t {
+		return true
+	}
+	for _, sp := range p.blockedSpans {
+		if sp[0] <= t && t <= sp[1] {
+			return true
+		}
+	}
+	return false
+}
+
 func (l *Link) SetCapacity(dir int, c int) {
 	p := l.A.wr
 	if dir == 1 {
@@ -392,9 +418,23 @@ func (c *Conn) Write(b []byte) (int, error) {
 	// read (what was done before sending a message is ordered before what its receipt causes)
 	simrt.HBRelease(&netIOSync)
 	total := 0
+	p.wseq++
+	wid := p.wseq
+	defer func() {
+		if p.partial == wid {
+			p.partial = 0
+		}
+	}()
 	for len(b) > 0 {
 		for p.used() >= p.capacity && !p.rst && !p.discard && !c.closed && !deadlinePassed(c.wdl) {
+			if !p.waiting {
+				p.waiting, p.waitSince = true, simrt.Elapsed()
+			}
 			p.q.Wait(fmt.Sprintf("write link%d dir%d (peer not reading)", p.link.ID, p.dir))
+		}
+		if p.waiting {
+			p.waiting = false
+			p.blockedSpans = append(p.blockedSpans, [2]time.Duration{p.waitSince, simrt.Elapsed()})
 		}
 		if c.closed {
 			return total, errClosedConn
@@ -483,12 +523,31 @@ func (c *Conn) Write(b []byte) (int, error) {
 				p.markCorrupted(hit.Off)
 			}
 		}
+		if p.partial != 0 && p.partial != wid && !p.mixed {
+			// two writers share this socket and one was cut in the middle of its buffer: the
+			// byte stream is no longer what either of them wrote
+			p.mixed = true
+			c.n.Fired["net.writers-interleaved"]++
+			w.event("net", "writers interleaved on link%d dir%d at off=%d", p.link.ID, p.dir, p.written)
+			if isRealNode(c.Owner) {
+				for _, prop := range []string{"C04", "C06"} {
+					w.violate(prop, "writers-interleaved", "%s: two goroutines wrote to the socket of link%d at once; the stream is no longer a sequence of frames (offset %d)", c.Owner, p.link.ID, p.written)
+				}
+			} else {
+				panic(fmt.Sprintf("harness: raw peer %s wrote to link%d from two goroutines at once", c.Owner, p.link.ID))
+			}
+		}
 		if !p.discard {
 			p.send(seg)
 		}
 		p.written += int64(n)
 		total += n
 		b = b[n:]
+		if len(b) > 0 {
+			p.partial = wid
+		} else if p.partial == wid {
+			p.partial = 0
+		}
 	}
 	return total, nil
 }
